@@ -148,8 +148,6 @@ def patch(ru_overrides=None, os_faulty=()):
                 d[k] = rup
             elif v is os and name in os_modules:
                 d[k] = simos
-            elif v is sys and name in sys_modules:
-                d[k] = simsys
 
     _patched = rup
     rup.simos = simos
